@@ -553,7 +553,7 @@ def correspondence(ctx, budget=None):
     smp = check_dates(ctx, cases, kinds, 0)
     for c, s, r in smp:
         ctx.sample({"stream": "dates", "mtime": c[0], "now": c[1], "client_now": c[2], "formatted": s, "parsed": r})
-    xcheck += [(10, [H, 0, m, n], [ord(ch) for ch in s]) for (m, n, _), s, _ in smp]
+    xcheck += [(10, [H, 0, m, n], o) for (m, n, _), o in zip(cases[:6], ctx.model([(10, [H, 0, m, n]) for m, n, _ in cases[:6]]))]
     # fractional clocks / mtimes: oracle only (the model is integral)
     nfrac = 0
     for m, n, n2 in rng.sample(cases, min(len(cases), 3000)):
@@ -737,9 +737,9 @@ def correspondence(ctx, budget=None):
             mode = rng.choice([0o100000, 0o040000]) | (mode & 0o777)
         nlink = rng.choice([1, 1, 2, 10, 123456])
         lents.append((name, size, m, n, n2, mode, nlink))
-    mo = ctx.model([(22, [H, 0, n, [sz, 0, m, nl, mode], name]) for name, sz, m, n, n2, mode, nl in lents])
+    lmo = ctx.model([(22, [H, 0, n, [sz, 0, m, nl, mode], name]) for name, sz, m, n, n2, mode, nl in lents])
     llines = []
-    for (name, sz, m, n, n2, mode, nl), o in zip(lents, mo):
+    for (name, sz, m, n, n2, mode, nl), o in zip(lents, lmo):
         ctx.case(("list-build", name, sz, m, n, mode, nl))
         ctx.traces_impl += 1
         line = impl_build_list(server, tp, n, mkstats(sz, 0, m, nl, mode), name)
@@ -814,8 +814,8 @@ def correspondence(ctx, budget=None):
     ctx.count("list:oracle hits on S/T modes (known finding)", st_known)
     ctx.count("list:oracle hits on leading-whitespace names (known finding)", lead_known)
     xcheck += [(23, [H, T, dt6(d), l], o) for (l, _), d, o in list(zip(allp, nows, mo))[:12]]
-    xcheck += [(22, [H, 0, n, [sz, 0, m, nl, mode], name], [ord(c) for c in llines[i]])
-               for i, (name, sz, m, n, n2, mode, nl) in enumerate(lents[:8])]
+    xcheck += [(22, [H, 0, n, [sz, 0, m, nl, mode], name], o)
+               for (name, sz, m, n, n2, mode, nl), o in zip(lents[:8], lmo[:8])]
 
     # ---------------- (f) loopback sessions
     try:
@@ -1029,12 +1029,13 @@ def replay(ctx, data):
     tp = install_clocks()
     server, client = aioftp.Server(), aioftp.Client()
     if key == "c07-ls-date":
-        s = impl_build_list_mtime(r["mtime"], r["now"])
+        if r.get("off", 0) != 0 and r.get("zone") not in (None, "utc"):
+            s = run_tz_worker(r["zone"], [[r["mtime"], r["now"]]])[0][0]
+        else:
+            s = impl_build_list_mtime(r["mtime"], r["now"])
         got = impl_parse_ls_date(s, naive(r["client_now"] + r.get("off", 0)))
         want, region = date_oracle(int(r["mtime"] // 1), r["now"], r["client_now"], r.get("off", 0))
         print(f"formatted {s!r} parsed {got} expected {want} ({region}); recorded zone {r.get('zone', 'utc')}")
-        if r.get("off", 0) != 0:
-            print("(recorded under another TZ: replay it with TZ set accordingly)")
         return want is None or got == want
     if key in ("c07-list-mode-S-or-T", "c07-list-name-leading-whitespace"):
         return replay_key(server, client, tp, key, r.get("now", 0), r)
@@ -1051,8 +1052,8 @@ def replay(ctx, data):
         print("line:", repr(line), "->", str(p), dict(entry))
         return str(p) == r["name"] and (not r["exists"] or (entry.get("size") == str(r["size"]) and entry.get("modify") == fmt14(naive(r["mtime"]), "second")))
     if key == "c07-mlsx-time":
-        got = aioftp.Server._format_mlsx_time(r["mtime"])
-        print("note: recorded under TZ", r.get("zone"), "; this process runs under", os.environ.get("TZ"))
+        got = run_tz_worker(r.get("zone", "UTC"), [[r["mtime"], r["mtime"]]])[0][1]
+        print("under TZ", r.get("zone"), "_format_mlsx_time ->", got)
         return got == fmt14(naive(r["mtime"]), "second")
     print("replay payload (wire-level or unknown key; re-run bin/check C07 with the same VERIF_SEED):", json.dumps(data)[:2000])
     return False
